@@ -174,7 +174,15 @@ NewRaw(e) ==
               ELSE [stats EXCEPT !.raw_inputs = @ + 1, !.raw_noncanonical = @ + B2I(~Canonical(e.out)),
                                  !.raw_wrong_class = @ + B2I(~SameClass(e.out, <<e.n, e.d>>)),
                                  !.raw_misclassified = @ + B2I(e.clifford # ClsClifford(<<e.n, e.d>>) \/ e.t # ClsT(<<e.n, e.d>>))]
-  /\ UNCHANGED <<reg, viol, drift>>
+  \* A REDUCED fraction written with a negative denominator (Ratio::new_raw(n, -d), gcd 1) is a rational like any other
+  \* ("negative denominators" are named in the property): Phase::new must store the canonical representative of its class and
+  \* classify it by the class. Unreduced raw ratios break num::Ratio's own invariant and stay an observation.
+  /\ viol' = IF e.d # 0 /\ Gcd(PAbs(e.n), PAbs(e.d)) = 1 THEN
+               (IF e.res # "ok" THEN <<<<l, "NoPanic", "newraw">>>>
+                ELSE (IF Canonical(e.out) /\ SameClass(e.out, <<e.n, e.d>>) THEN <<>> ELSE <<<<l, "RawCanonical", e.n, e.d>>>>)
+                     \o (IF e.clifford = ClsClifford(<<e.n, e.d>>) /\ e.t = ClsT(<<e.n, e.d>>) THEN <<>> ELSE <<<<l, "RawClassified", e.n, e.d>>>>)) \o viol
+             ELSE viol
+  /\ UNCHANGED <<reg, drift>>
 Step(e) ==
   CASE e.k = "begin" -> /\ reg' = [i \in 0..(e.regs - 1) |-> PZeroPh]
                         /\ stats' = [stats EXCEPT !.groups = @ + 1]
